@@ -103,7 +103,34 @@ func AllShapes(idx int) *schema.File {
 		{Name: "w6", Num: 1<<29 - 1, Kind: "fixed32"}, {Name: "w7", Num: 1<<28 - 1, Kind: "map", MapKey: "string", MapVal: "int32"},
 		{Name: "w8", Num: 19000, Kind: "bytes"},
 	}}
-	f.Messages = append(f.Messages, plain, opt, rep, one, cast, wide)
+	// Nest: nested declarations (messages two levels deep and an enum declared inside a message),
+	// referenced from inside, from their parent and from a sibling top-level message
+	f.Enums = append(f.Enums, schema.Enum{Parent: "Nest", Name: "Nest_Color", Names: []string{"NONE", "RED", "DEEP_NEG"}, Values: []int32{0, 1, -7}})
+	nest := schema.Message{Name: "Nest", Fields: []schema.Field{
+		{Name: "inner", Num: 1, Kind: "message", Ref: "Nest_Inner"},
+		{Name: "inners", Num: 2, Kind: "message", Ref: "Nest_Inner", Label: "repeated"},
+		{Name: "color", Num: 3, Kind: "enum", Ref: "Nest_Color"},
+		{Name: "colors", Num: 4, Kind: "enum", Ref: "Nest_Color", Label: "repeated"},
+		{Name: "deep", Num: 5, Kind: "message", Ref: "Nest_Inner_Deep"},
+		{Name: "pick_inner", Num: 6, Kind: "message", Ref: "Nest_Inner", Oneof: "pick"},
+		{Name: "pick_color", Num: 7, Kind: "enum", Ref: "Nest_Color", Oneof: "pick"},
+	}}
+	nestInner := schema.Message{Name: "Nest_Inner", Parent: "Nest", Fields: []schema.Field{
+		{Name: "x", Num: 1, Kind: "sint64"},
+		{Name: "deep", Num: 2, Kind: "message", Ref: "Nest_Inner_Deep", Label: "repeated"},
+		{Name: "up", Num: 3, Kind: "message", Ref: "Nest"},
+		{Name: "c", Num: 4, Kind: "enum", Ref: "Nest_Color", Label: "optional", Always: true},
+	}}
+	nestDeep := schema.Message{Name: "Nest_Inner_Deep", Parent: "Nest_Inner", Capture: true, Fields: []schema.Field{
+		{Name: "s", Num: 1, Kind: "string"},
+		{Name: "m", Num: 2, Kind: "map", MapKey: "int32", MapVal: "bytes"},
+	}}
+	user := schema.Message{Name: "NestUser", Fields: []schema.Field{
+		{Name: "i", Num: 1, Kind: "message", Ref: "Nest_Inner"},
+		{Name: "d", Num: 2, Kind: "message", Ref: "Nest_Inner_Deep", Label: "repeated"},
+		{Name: "col", Num: 3, Kind: "enum", Ref: "Nest_Color"},
+	}}
+	f.Messages = append(f.Messages, plain, opt, rep, one, cast, wide, nest, nestInner, nestDeep, user)
 	return f
 }
 
@@ -133,11 +160,17 @@ func RandomSchema(r *rand.Rand, idx int) *schema.File {
 	f := baseFile(idx)
 	nm := 2 + r.Intn(3)
 	names := make([]string, nm)
+	parents := make([]string, nm)
 	for i := range names {
 		names[i] = fmt.Sprintf("M%d", i)
+		// sometimes declare the message INSIDE an earlier one (its Go name becomes Parent_Mi)
+		if i > 0 && r.Intn(4) == 0 {
+			parents[i] = names[r.Intn(i)]
+			names[i] = parents[i] + "_" + names[i]
+		}
 	}
 	for mi := 0; mi < nm; mi++ {
-		m := schema.Message{Name: names[mi], Capture: r.Intn(3) == 0}
+		m := schema.Message{Name: names[mi], Parent: parents[mi], Capture: r.Intn(3) == 0}
 		nf := 1 + r.Intn(10)
 		used := map[int32]bool{}
 		pick := func() int32 {
